@@ -895,6 +895,11 @@ class Built(object):
         if op == 'inner_op':
             # the service calls another decorated operation from inside this one (legal when that class is skipped for recording)
             inner = self.prog.get('_inner_built')
+            if inner is None and self.prog.get('inner_prog') is not None:
+                # built lazily, once per Built, on this Built's own recorder (so a replay uses the replaying recorder)
+                inner = self.__dict__.get('_inner_of_prog')
+                if inner is None:
+                    inner = self._inner_of_prog = Built(self.prog['inner_prog'], self.recorder, World(7, raise_rate=0.0))
             if inner is not None:
                 out = inner.run('inner')
                 self.journal.add({'ev': 'inner_op', 'outcome': out.kind})
